@@ -6,6 +6,7 @@ Nothing of chython is imported or executed.
 """
 import ast
 import os
+from .normalize import normalise_module
 from .core import AnalysisError
 
 
@@ -196,6 +197,7 @@ class Repo:
         self.root = root
         self.package = package
         self.modules = {}
+        self.inlined_helpers = {}  # module -> new helper functions whose calls were replaced by their bodies (sa/normalize.py)
         base = os.path.join(root, package)
         if not os.path.isdir(base):
             raise AnalysisError(f'package directory {base} not found')
@@ -217,7 +219,13 @@ class Repo:
                     tree = ast.parse(src, filename=path)
                 except SyntaxError as e:
                     raise AnalysisError(f'{rel} does not parse: {e}')
+                try:
+                    inlined = normalise_module(tree, name)
+                except RecursionError:
+                    inlined = []
                 self.modules[name] = ModuleInfo(name, path, rel, tree, is_pkg, src)
+                if inlined:
+                    self.inlined_helpers[name] = inlined
         self._resolving = set()
         self._mro = {}
         for m in self.modules.values():
